@@ -30,6 +30,20 @@ def replay(model, obligation):
     c._make_connection_factory = lambda h, *a, **k: (lambda: None)
     c._prepare_all_queries = lambda h: None
     c._discount_down_events = False
+    if 'signal_connection_failure' in obligation:
+        for verdict in (True, False):
+            for addition in (False, True):
+                for expect in (None, False, True):
+                    h2 = Host(DefaultEndPoint('10.0.0.2'), lambda h: types.SimpleNamespace(reset=lambda: None, add_failure=lambda e: verdict))
+                    seen = []
+                    c.on_down = lambda h, is_host_addition, expect_host_to_be_down=False: seen.append((h, is_host_addition, expect_host_to_be_down))
+                    r = c.signal_connection_failure(h2, Exception('x'), addition) if expect is None else \
+                        c.signal_connection_failure(h2, Exception('x'), addition, expect_host_to_be_down=expect)
+                    want = [(h2, addition, bool(expect))] if verdict else []
+                    if r is not verdict or seen != want:
+                        fails.append('conviction %s, is_host_addition=%s, expect_host_to_be_down=%r: returned %r, on_down called with %r'
+                                     % (verdict, addition, expect, r, [x[1:] for x in seen]))
+        return {'reproduced': bool(fails), 'detail': '; '.join(fails[:2]) or 'down handling runs exactly when the host is convicted, with the caller\'s flags'}
     if 'on_up' in obligation:
         host.is_up = False
         c.on_up(host)
